@@ -710,7 +710,16 @@ fn gen_case(rng: &mut Rng, which: usize, max_len: usize) -> Case {
         }
         14 => {
             let n = *rng.pick(&["min", "max"]);
-            if rng.chance(1, 2) {
+            if rng.chance(1, 4) {
+                // several values instead of one sequence: `min(a, b, c[, f])`
+                let m = 2 + rng.below(3) as usize;
+                let p = if rng.chance(1, 5) { Profile::Mixed } else if rng.chance(1, 4) { Profile::Lists } else { Profile::Ints };
+                let mut args: Vec<A> = gen_elems(rng, m, p).into_iter().map(A::V).collect();
+                if rng.chance(1, 3) {
+                    args.push(cmpf(rng, &s));
+                }
+                mk(n, args)
+            } else if rng.chance(1, 2) {
                 mk(n, vec![sa])
             } else {
                 mk(n, vec![sa, cmpf(rng, &s)])
